@@ -230,6 +230,8 @@ func C09(p *core.Program, r *core.Report) {
 			r.Check(okI, "partition/"+fname(frag)+"/offset-is-slice-start", "the fragment offset recorded in the primary block is the start of the slice it carries", p.Pos(c.Pos()), "", "offset argument does not depend on the loop position i")
 		}
 	}
+	checkOneSortedSlice(p, r, p.Func(bp7, "", "ReassembleFragments"), p.Func(bp7, "", "prepareReassembly"))
+
 	// extension blocks distribution
 	var addInLoop []ssa.CallInstruction
 	for _, c := range core.CallsTo(frag, bp7+".Bundle.AddExtensionBlock") {
@@ -448,7 +450,75 @@ func C10(p *core.Program, r *core.Report) {
 			}
 		}
 	}
+	checkOneSortedSlice(p, r, rf, prep)
 	r.Check(okPrep, "store/"+fname(rf)+"/checks-before-merge", "payloads are merged only after prepareReassembly()==nil (sorted, no gap, total covered)", p.Pos(rf.Pos()), "", "mergeFragmentPayload reachable without a successful prepareReassembly")
+	storeSideC10(p, r)
+}
+
+// checkOneSortedSlice is shared by C09 (reassembly in any order) and C10.
+func checkOneSortedSlice(p *core.Program, r *core.Report, rf, prep *ssa.Function) {
+	// the slice that was sorted and checked is the one whose first element supplies the blocks
+	var checked ssa.Value
+	for _, c := range core.CallsTo(rf, bp7+".prepareReassembly") {
+		checked = core.CallArgs(c)[0]
+	}
+	okSame := checked != nil
+	detailSame := ""
+	core.EachInstr(rf, func(in ssa.Instruction) {
+		switch x := in.(type) {
+		case *ssa.IndexAddr:
+			if isBundleSlice(x.X.Type()) && x.X != checked {
+				okSame = false
+				detailSame = "element access at " + p.Pos(x.Pos()) + " reads another slice than the one prepareReassembly sorted"
+			}
+		case *ssa.Call:
+			if core.NameIs(core.CalleeName(x), bp7+".mergeFragmentPayload") && core.CallArgs(x)[0] != checked {
+				okSame = false
+				detailSame = "mergeFragmentPayload gets another slice than the one prepareReassembly sorted"
+			}
+		}
+	})
+	r.Check(okSame, "store/"+fname(rf)+"/one-sorted-slice", "the primary block, the extension blocks and the payloads are all taken from the very slice prepareReassembly sorted by offset (element 0 is the offset-0 fragment, which carries all extension blocks)", p.Pos(rf.Pos()), "", detailSame+": with fragments given out of order the reassembled bundle silently loses the non-replicated blocks")
+	// prepareReassembly sorts its argument by FragmentOffset, in place
+	okSort := false
+	for _, c := range core.CallsTo(prep, "sort.Slice") {
+		arg := core.Strip(core.CallArgs(c)[0])
+		isParam := arg == ssa.Value(prep.Params[0])
+		if ld, ok := arg.(*ssa.UnOp); ok {
+			if a, ok := ld.X.(*ssa.Alloc); ok && allocHoldsParam(a, prep.Params[0]) {
+				isParam = true
+			}
+		}
+		if isParam {
+			for _, cl := range prep.AnonFuncs {
+				nOff := 0
+				core.EachInstr(cl, func(in ssa.Instruction) {
+					if fa, ok := in.(*ssa.FieldAddr); ok && pathEndsWith(fa, "FragmentOffset") {
+						nOff++
+					}
+				})
+				if nOff >= 2 {
+					okSort = true
+				}
+			}
+		}
+	}
+	r.Check(okSort, "store/"+fname(prep)+"/sorts-by-offset", "prepareReassembly sorts the fragments it was given by fragment offset", p.Pos(prep.Pos()), "", "sort.Slice over the parameter by FragmentOffset not found")
+}
+
+func storeSideC10(p *core.Program, r *core.Report) {
+	// distinct fragments get distinct part files: the file name depends on the payload length, too
+	bpp := p.Func(storagePkg, "", "bundlePartPath")
+	okName := false
+	for _, c := range core.CallsTo(bpp, "crypto/sha256.Sum256") {
+		okName = len(bpp.Params) >= 3 && core.DependsOn(core.CallArgs(c)[0], func(v ssa.Value) bool { return v == ssa.Value(bpp.Params[1]) }) &&
+			core.DependsOn(core.CallArgs(c)[0], func(v ssa.Value) bool {
+				cc, ok := v.(*ssa.Call)
+				return ok && core.NameIs(core.CalleeName(cc), bp7+".BundleID.String")
+			})
+	}
+	r.Check(okName, "store/"+fname(bpp)+"/distinct-files", "the part file name is derived from the fragment's bundle ID and its payload length, so that two fragments starting at the same offset do not overwrite each other", p.Pos(bpp.Pos()), "", "file name does not depend on the payload length")
+
 	push := p.Func(storagePkg, "Store", "Push")
 	nPartApp := 0
 	core.EachInstr(push, func(in ssa.Instruction) {
@@ -481,14 +551,14 @@ func C10(p *core.Program, r *core.Report) {
 				seen := map[string]bool{}
 				for _, pc := range conds {
 					if bo, ok := pc.V.(*ssa.BinOp); ok && bo.Op == token.EQL && pc.True {
-						for _, f := range []string{"FragmentOffset", "TotalDataLength"} {
+						for _, f := range []string{"FragmentOffset", "TotalDataLength", "PayloadLength"} {
 							if pathEndsWith(bo.X, f) && pathEndsWith(bo.Y, f) {
 								seen[f] = true
 							}
 						}
 					}
 				}
-				if seen["FragmentOffset"] && seen["TotalDataLength"] {
+				if seen["FragmentOffset"] && seen["TotalDataLength"] && seen["PayloadLength"] {
 					good = true
 				}
 			}
@@ -496,7 +566,7 @@ func C10(p *core.Program, r *core.Report) {
 				okDedup = true
 			}
 		}
-		r.Check(okDedup, "store/"+fname(push)+"/dedup-parts", "a fragment is added to a record only if no part with the same (offset, total length) is stored", p.Pos(c.Pos()), "", "append of a part is not guarded by the duplicate test")
+		r.Check(okDedup, "store/"+fname(push)+"/dedup-parts", "a fragment is added to a record unless a part with the same offset, total length AND payload length is stored: fragments of different fragmentations share offsets but differ in length, and dropping the longer one can leave the record incomplete for ever", p.Pos(c.Pos()), "", "the duplicate test does not compare offset, total length and payload length")
 	})
 	r.Min("part appends in Store.Push", 1)
 	r.Count("part appends in Store.Push", nPartApp)
